@@ -2,10 +2,12 @@
 # usage: tools/seedtest.sh <seed id> <check id>...   — apply a seeded change to /repo, run checks, undo.
 id=$1; shift
 cd /verif
+save=$(mktemp -d); cp -r /verif/evidence "$save/"; cp -r /verif/replays "$save/"
 git -C /repo apply /verif/seeded/$id/patch.diff || { echo "apply failed"; exit 2; }
 for c in "$@"; do
   out=$(./check $c 2>&1); rc=$?
   echo "seed=$id check=$c rc=$rc"; echo "$out" | grep -E "VIOLATION|PROOF PROBLEM|disagreements" | head -6
 done
 git -C /repo checkout -- .
+rm -rf /verif/evidence /verif/replays; cp -r "$save/evidence" /verif/evidence; cp -r "$save/replays" /verif/replays; rm -rf "$save"
 git -C /verif checkout -- lean/Vlsp/Generated.lean 2>/dev/null
